@@ -37,9 +37,18 @@ theories/Model/Simplify.vos theories/Model/Simplify.vok theories/Model/Simplify.
 theories/Proofs/BVLemmas.vo theories/Proofs/BVLemmas.glob theories/Proofs/BVLemmas.v.beautified theories/Proofs/BVLemmas.required_vo: theories/Proofs/BVLemmas.v theories/Spec/BV.vo
 theories/Proofs/BVLemmas.vio: theories/Proofs/BVLemmas.v theories/Spec/BV.vio
 theories/Proofs/BVLemmas.vos theories/Proofs/BVLemmas.vok theories/Proofs/BVLemmas.required_vos: theories/Proofs/BVLemmas.v theories/Spec/BV.vos
+theories/Proofs/EncodingBasics.vo theories/Proofs/EncodingBasics.glob theories/Proofs/EncodingBasics.v.beautified theories/Proofs/EncodingBasics.required_vo: theories/Proofs/EncodingBasics.v theories/Model/EvalImpl.vo theories/Model/Encoding.vo theories/Spec/SysExec.vo theories/Proofs/ExprLemmas.vo theories/Proofs/McBasics.vo theories/Proofs/ScriptProofs.vo
+theories/Proofs/EncodingBasics.vio: theories/Proofs/EncodingBasics.v theories/Model/EvalImpl.vio theories/Model/Encoding.vio theories/Spec/SysExec.vio theories/Proofs/ExprLemmas.vio theories/Proofs/McBasics.vio theories/Proofs/ScriptProofs.vio
+theories/Proofs/EncodingBasics.vos theories/Proofs/EncodingBasics.vok theories/Proofs/EncodingBasics.required_vos: theories/Proofs/EncodingBasics.v theories/Model/EvalImpl.vos theories/Model/Encoding.vos theories/Spec/SysExec.vos theories/Proofs/ExprLemmas.vos theories/Proofs/McBasics.vos theories/Proofs/ScriptProofs.vos
 theories/Proofs/EncodingExamples.vo theories/Proofs/EncodingExamples.glob theories/Proofs/EncodingExamples.v.beautified theories/Proofs/EncodingExamples.required_vo: theories/Proofs/EncodingExamples.v theories/Model/Encoding.vo
 theories/Proofs/EncodingExamples.vio: theories/Proofs/EncodingExamples.v theories/Model/Encoding.vio
 theories/Proofs/EncodingExamples.vos theories/Proofs/EncodingExamples.vok theories/Proofs/EncodingExamples.required_vos: theories/Proofs/EncodingExamples.v theories/Model/Encoding.vos
+theories/Proofs/EncodingFaithful.vo theories/Proofs/EncodingFaithful.glob theories/Proofs/EncodingFaithful.v.beautified theories/Proofs/EncodingFaithful.required_vo: theories/Proofs/EncodingFaithful.v theories/Model/EvalImpl.vo theories/Model/Encoding.vo theories/Spec/SysExec.vo theories/Spec/ReachBmc.vo theories/Proofs/ExprLemmas.vo theories/Proofs/McBasics.vo theories/Proofs/ScriptProofs.vo theories/Proofs/EncodingBasics.vo
+theories/Proofs/EncodingFaithful.vio: theories/Proofs/EncodingFaithful.v theories/Model/EvalImpl.vio theories/Model/Encoding.vio theories/Spec/SysExec.vio theories/Spec/ReachBmc.vio theories/Proofs/ExprLemmas.vio theories/Proofs/McBasics.vio theories/Proofs/ScriptProofs.vio theories/Proofs/EncodingBasics.vio
+theories/Proofs/EncodingFaithful.vos theories/Proofs/EncodingFaithful.vok theories/Proofs/EncodingFaithful.required_vos: theories/Proofs/EncodingFaithful.v theories/Model/EvalImpl.vos theories/Model/Encoding.vos theories/Spec/SysExec.vos theories/Spec/ReachBmc.vos theories/Proofs/ExprLemmas.vos theories/Proofs/McBasics.vos theories/Proofs/ScriptProofs.vos theories/Proofs/EncodingBasics.vos
+theories/Proofs/EncodingWf.vo theories/Proofs/EncodingWf.glob theories/Proofs/EncodingWf.v.beautified theories/Proofs/EncodingWf.required_vo: theories/Proofs/EncodingWf.v theories/Model/EvalImpl.vo theories/Model/Encoding.vo theories/Spec/SysExec.vo theories/Spec/ReachBmc.vo theories/Proofs/ExprLemmas.vo theories/Proofs/McBasics.vo theories/Proofs/ScriptProofs.vo theories/Proofs/EncodingBasics.vo theories/Proofs/EncodingFaithful.vo
+theories/Proofs/EncodingWf.vio: theories/Proofs/EncodingWf.v theories/Model/EvalImpl.vio theories/Model/Encoding.vio theories/Spec/SysExec.vio theories/Spec/ReachBmc.vio theories/Proofs/ExprLemmas.vio theories/Proofs/McBasics.vio theories/Proofs/ScriptProofs.vio theories/Proofs/EncodingBasics.vio theories/Proofs/EncodingFaithful.vio
+theories/Proofs/EncodingWf.vos theories/Proofs/EncodingWf.vok theories/Proofs/EncodingWf.required_vos: theories/Proofs/EncodingWf.v theories/Model/EvalImpl.vos theories/Model/Encoding.vos theories/Spec/SysExec.vos theories/Spec/ReachBmc.vos theories/Proofs/ExprLemmas.vos theories/Proofs/McBasics.vos theories/Proofs/ScriptProofs.vos theories/Proofs/EncodingBasics.vos theories/Proofs/EncodingFaithful.vos
 theories/Proofs/EvalImplProofs.vo theories/Proofs/EvalImplProofs.glob theories/Proofs/EvalImplProofs.v.beautified theories/Proofs/EvalImplProofs.required_vo: theories/Proofs/EvalImplProofs.v theories/Model/EvalImpl.vo theories/Proofs/ExprLemmas.vo
 theories/Proofs/EvalImplProofs.vio: theories/Proofs/EvalImplProofs.v theories/Model/EvalImpl.vio theories/Proofs/ExprLemmas.vio
 theories/Proofs/EvalImplProofs.vos theories/Proofs/EvalImplProofs.vok theories/Proofs/EvalImplProofs.required_vos: theories/Proofs/EvalImplProofs.v theories/Model/EvalImpl.vos theories/Proofs/ExprLemmas.vos
@@ -49,6 +58,12 @@ theories/Proofs/EvalProofs.vos theories/Proofs/EvalProofs.vok theories/Proofs/Ev
 theories/Proofs/ExprLemmas.vo theories/Proofs/ExprLemmas.glob theories/Proofs/ExprLemmas.v.beautified theories/Proofs/ExprLemmas.required_vo: theories/Proofs/ExprLemmas.v theories/Model/Expr.vo
 theories/Proofs/ExprLemmas.vio: theories/Proofs/ExprLemmas.v theories/Model/Expr.vio
 theories/Proofs/ExprLemmas.vos theories/Proofs/ExprLemmas.vok theories/Proofs/ExprLemmas.required_vos: theories/Proofs/ExprLemmas.v theories/Model/Expr.vos
+theories/Proofs/McBasics.vo theories/Proofs/McBasics.glob theories/Proofs/McBasics.v.beautified theories/Proofs/McBasics.required_vo: theories/Proofs/McBasics.v theories/Spec/SysExec.vo theories/Model/Analysis.vo
+theories/Proofs/McBasics.vio: theories/Proofs/McBasics.v theories/Spec/SysExec.vio theories/Model/Analysis.vio
+theories/Proofs/McBasics.vos theories/Proofs/McBasics.vok theories/Proofs/McBasics.required_vos: theories/Proofs/McBasics.v theories/Spec/SysExec.vos theories/Model/Analysis.vos
+theories/Proofs/ScriptProofs.vo theories/Proofs/ScriptProofs.glob theories/Proofs/ScriptProofs.v.beautified theories/Proofs/ScriptProofs.required_vo: theories/Proofs/ScriptProofs.v theories/Spec/Script.vo theories/Spec/SysExec.vo theories/Model/Analysis.vo theories/Proofs/McBasics.vo
+theories/Proofs/ScriptProofs.vio: theories/Proofs/ScriptProofs.v theories/Spec/Script.vio theories/Spec/SysExec.vio theories/Model/Analysis.vio theories/Proofs/McBasics.vio
+theories/Proofs/ScriptProofs.vos theories/Proofs/ScriptProofs.vok theories/Proofs/ScriptProofs.required_vos: theories/Proofs/ScriptProofs.v theories/Spec/Script.vos theories/Spec/SysExec.vos theories/Model/Analysis.vos theories/Proofs/McBasics.vos
 theories/Props/C04.vo theories/Props/C04.glob theories/Props/C04.v.beautified theories/Props/C04.required_vo: theories/Props/C04.v theories/Model/Encoding.vo theories/Proofs/EncodingExamples.vo
 theories/Props/C04.vio: theories/Props/C04.v theories/Model/Encoding.vio theories/Proofs/EncodingExamples.vio
 theories/Props/C04.vos theories/Props/C04.vok theories/Props/C04.required_vos: theories/Props/C04.v theories/Model/Encoding.vos theories/Proofs/EncodingExamples.vos
